@@ -35,7 +35,7 @@ _state = {}
 
 
 def _init():
-    if _state:
+    if "cat" in _state:
         return _state
     d = os.path.join(VERIF, "canaries")
     if d not in sys.path:
